@@ -98,6 +98,7 @@ theorem CInv.step_easy {n : Net} (op : Op) (hnp : op ≠ .proxy) (hl : (n.step o
   cases op with
   | proxy => exact absurd rfl hnp
   | cut => simp [Net.step] at hl
+  | loseA => simp [Net.step] at hl
   | cast sender payload =>
     simp only [Net.step, hup, ↓reduceIte]
     refine ⟨?_, h2, h3, h4, ?_, ?_⟩
